@@ -7,10 +7,10 @@
 (* 5 that (for rich configurations with every symmetry on) each of the 17   *)
 (* operation classes is actually chosen by some bin (vacuity guard).        *)
 EXTENDS Symmetries
-CONSTANTS Ns, MaxR, MaxT, Nppr
+CONSTANTS Ns, Rs, MaxT, Nppr
 VARIABLES c, g, esw, k
 
-Raw == [N : Ns, R : 1..MaxR, span : {1, 3}, dred : 0..1, mash : {1, 2}, tofMash : {0, 1}, T : 1..MaxT, asym : 0..1]
+Raw == [N : Ns, R : Rs, span : {1, 3}, dred : 0..1, mash : {1, 2}, tofMash : {0, 1}, T : 1..MaxT, asym : 0..1]
 Data(x) ==
   LET c0 == [N |-> x.N, R |-> x.R, span |-> x.span, ge |-> FALSE, maxDelta |-> x.R - 1 - x.dred, mash |-> x.mash,
              tofMash |-> x.tofMash, maxT |-> 3, minTang |-> -x.T, maxTang |-> x.T - x.asym, minSeg |-> 0, maxSeg |-> 0]
